@@ -334,6 +334,17 @@ class Report:
             self.known.append((fid, what))
 
     def finish(self, rule, trusted_base, assumptions, checker_cmd):
+        # a finding is only excused when the committed known_findings.json lists it as
+        # "known" for this property; a "fixed" entry (or no entry) suppresses nothing
+        listed = {e["id"] for e in load_known_findings()
+                  if e.get("status") == "known"
+                  and (e.get("property") == self.prop or self.prop in e.get("also_affects", []))}
+        for fid, what in list(self.known):
+            if fid not in listed:
+                self.known.remove((fid, what))
+                self.violation("finding %s met but known_findings.json does not list it as known for %s "
+                               "(fixed entries suppress nothing): %s" % (fid, self.prop, what),
+                               {"finding": fid, "what": what})
         wall = time.time() - self.t0
         cov = {
             "evaluations": self.evaluations,
